@@ -478,6 +478,9 @@ func runC07(c *an.Ctx) {
 					}
 				}
 			}
+			if os.Getenv("HDRCHECK_ERRSURVEY") != "" {
+				checkErrorDiscipline(c, "C07.y", nil, p.RepoFuncs()...)
+			}
 			if os.Getenv("HDRCHECK_LOCKSURVEY") != "" {
 				checkLockBalance(c, "C07.z", p.RepoFuncs()...)
 			}
